@@ -97,11 +97,23 @@ func (t *vTable) ScanRange(lo []byte, hi []byte) (SSTableIteratorI, error) {
 
 func (t *vTable) Close() error { t.closed++; return nil }
 
+// MetaData is truthful (the contract C15 establishes for tables the real writer produces): record count, nil
+// count, smallest and largest key.
 func (t *vTable) MetaData() *proto.MetaData {
 	if t.meta != nil {
 		return t.meta
 	}
-	return &proto.MetaData{NumRecords: uint64(len(t.keys))}
+	md := &proto.MetaData{NumRecords: uint64(len(t.keys)), Version: 1}
+	for _, v := range t.vals {
+		if v == nil {
+			md.NullValues++
+		}
+	}
+	if len(t.keys) > 0 {
+		md.MinKey = append([]byte{}, t.keys[0]...)
+		md.MaxKey = append([]byte{}, t.keys[len(t.keys)-1]...)
+	}
+	return md
 }
 
 func (t *vTable) BasePath() string { return t.name }
